@@ -76,7 +76,7 @@ func (fr *Frame) exec(ins ssa.Instruction, st *State, rch Term) {
 		if isString(base.T) {
 			fr.safety("bounds", x, rch, and(sx("<=", "0", idx), sx("<", idx, base.C[1])))
 			vc.regFam("E$uint8", "Int")
-			fr.vals[x] = Val{T: x.Type(), C: []Term{vc.sel(vc.get(st, "E$uint8"), add(base.C[0], idx))}}
+			fr.vals[x] = Val{T: x.Type(), C: []Term{vc.sel(vc.get(st, "E$uint8"), adr(base.C[0], idx))}}
 			vc.assumeIf(rch, vc.wf(fr.vals[x], st))
 		} else {
 			unsup("Index on %s", base.T)
@@ -87,7 +87,7 @@ func (fr *Frame) exec(ins ssa.Instruction, st *State, rch Term) {
 			idx := fr.value(x.Index).t()
 			fr.safety("bounds", x, rch, and(sx("<=", "0", idx), sx("<", idx, base.C[1])))
 			vc.regFam("E$uint8", "Int")
-			v := Val{T: x.Type(), C: []Term{vc.sel(vc.get(st, "E$uint8"), add(base.C[0], idx))}}
+			v := Val{T: x.Type(), C: []Term{vc.sel(vc.get(st, "E$uint8"), adr(base.C[0], idx))}}
 			fr.vals[x] = fr.named(x, v)
 			vc.assumeIf(rch, vc.wf(fr.vals[x], st))
 		} else {
@@ -218,7 +218,7 @@ func (fr *Frame) alloc(t types.Type, st *State) Val {
 		// embedded arrays are zero: storeTo havocs them; re-establish zero content
 		arrs, _ := embeddedArrays(t)
 		for _, ea := range arrs {
-			fr.zeroElems(ea.Elem, add(addr, itoa(ea.Off)), itoa(ea.N), st)
+			fr.zeroElems(ea.Elem, adr(addr, itoa(ea.Off)), itoa(ea.N), st)
 		}
 		vc.assume(sx("<", "0", addr))
 		return vc.ptrVal(pl)
@@ -281,7 +281,7 @@ func (fr *Frame) elemBase(pl *Place) Term {
 	if _, ok := pl.Root.Underlying().(*types.Array); ok && pl.Path == "" {
 		return pl.Addr
 	}
-	return add(pl.Addr, itoa(embOffset(pl.Root, pl.Path)))
+	return adr(pl.Addr, itoa(embOffset(pl.Root, pl.Path)))
 }
 
 func (fr *Frame) indexAddr(x *ssa.IndexAddr, st *State, rch Term) Val {
@@ -291,7 +291,7 @@ func (fr *Frame) indexAddr(x *ssa.IndexAddr, st *State, rch Term) Val {
 	switch u := base.T.Underlying().(type) {
 	case *types.Slice:
 		fr.safety("bounds", x, rch, and(sx("<=", "0", idx), sx("<", idx, base.C[1])))
-		pl := &Place{Root: u.Elem(), Addr: vc.define("ea", "Int", add(base.C[0], idx)), Cur: u.Elem()}
+		pl := &Place{Root: u.Elem(), Addr: adr(base.C[0], idx), Cur: u.Elem()}
 		return vc.ptrVal(pl)
 	case *types.Pointer:
 		at, ok := u.Elem().Underlying().(*types.Array)
@@ -303,7 +303,7 @@ func (fr *Frame) indexAddr(x *ssa.IndexAddr, st *State, rch Term) Val {
 			fr.safety("nil", x, rch, not(eq(base.t(), "0")))
 		}
 		fr.safety("bounds", x, rch, and(sx("<=", "0", idx), sx("<", idx, itoa(at.Len()))))
-		ep := &Place{Root: at.Elem(), Addr: vc.define("ea", "Int", add(fr.elemBase(pl), idx)), Cur: at.Elem()}
+		ep := &Place{Root: at.Elem(), Addr: adr(fr.elemBase(pl), idx), Cur: at.Elem()}
 		return vc.ptrVal(ep)
 	}
 	unsup("IndexAddr on %s", base.T)
@@ -349,7 +349,7 @@ func (fr *Frame) slice(x *ssa.Slice, st *State, rch Term) Val {
 		limit = ln
 	}
 	fr.safety("slice", x, rch, and(sx("<=", "0", lo), sx("<=", lo, hi), sx("<=", hi, mx), sx("<=", mx, limit)))
-	na := vc.define("sl", "Int", add(arr, lo))
+	na := adr(arr, lo)
 	if isStr {
 		return Val{T: x.Type(), C: []Term{na, vc.define("sl", "Int", sub(hi, lo))}}
 	}
@@ -764,13 +764,13 @@ func (fr *Frame) stringEq(a, b Val, st *State) Term {
 		if n, ok := litInt(c.C[1]); ok && n <= 64 {
 			cs := []Term{eq(o.C[1], c.C[1])}
 			for i := int64(0); i < n; i++ {
-				cs = append(cs, eq(sel(h, add(o.C[0], itoa(i))), sel(h, add(c.C[0], itoa(i)))))
+				cs = append(cs, eq(sel(h, adr(o.C[0], itoa(i))), sel(h, adr(c.C[0], itoa(i)))))
 			}
 			return and(cs...)
 		}
 	}
 	return and(eq(a.C[1], b.C[1]),
-		fmt.Sprintf("(forall ((k Int)) (=> (and (<= 0 k) (< k %s)) (= (select %s (+ %s k)) (select %s (+ %s k)))))", a.C[1], h, a.C[0], h, b.C[0]))
+		fmt.Sprintf("(forall ((k Int)) (=> (and (<= 0 k) (< k %s)) (= (select %s %s) (select %s %s))))", a.C[1], h, adr(a.C[0], "k"), h, adr(b.C[0], "k")))
 }
 
 func litInt(t Term) (int64, bool) {
@@ -788,8 +788,8 @@ func (fr *Frame) concat(a, b Val, st *State) Val {
 	vc.regFam("E$uint8", "Int")
 	old := vc.get(st, "E$uint8")
 	nw := vc.fresh("E$uint8~c", "(Array Int Int)")
-	vc.assume(fmt.Sprintf("(forall ((k Int)) (! (= (select %s k) (ite (and (<= %s k) (< k (+ %s %s))) (select %s (+ %s (- k %s))) (ite (and (<= (+ %s %s) k) (< k (+ %s %s))) (select %s (+ %s (- k (+ %s %s)))) (select %s k)))) :pattern ((select %s k))))",
-		nw, arr, arr, a.C[1], old, a.C[0], arr, arr, a.C[1], arr, n, old, b.C[0], arr, a.C[1], old, nw))
+	vc.assume(fmt.Sprintf("(forall ((k Int)) (! (= (select %s k) (ite (and (<= %s k) (< k (+ %s %s))) (select %s %s) (ite (and (<= (+ %s %s) k) (< k (+ %s %s))) (select %s %s) (select %s k)))) :pattern ((select %s k))))",
+		nw, arr, arr, a.C[1], old, adr(a.C[0], sx("-", "k", arr)), arr, a.C[1], arr, n, old, adr(b.C[0], sx("-", "k", sx("+", arr, a.C[1]))), old, nw))
 	st.m["E$uint8"] = nw
 	return Val{T: a.T, C: []Term{arr, n}}
 }
@@ -801,8 +801,8 @@ func (fr *Frame) copyBytes(src, n Term, st *State) Term {
 	vc.regFam("E$uint8", "Int")
 	old := vc.get(st, "E$uint8")
 	nw := vc.fresh("E$uint8~c", "(Array Int Int)")
-	vc.assume(fmt.Sprintf("(forall ((k Int)) (! (= (select %s k) (ite (and (<= %s k) (< k (+ %s %s))) (select %s (+ %s (- k %s))) (select %s k))) :pattern ((select %s k))))",
-		nw, arr, arr, n, old, src, arr, old, nw))
+	vc.assume(fmt.Sprintf("(forall ((k Int)) (! (= (select %s k) (ite (and (<= %s k) (< k (+ %s %s))) (select %s %s) (select %s k))) :pattern ((select %s k))))",
+		nw, arr, arr, n, old, adr(src, sx("-", "k", arr)), old, nw))
 	st.m["E$uint8"] = nw
 	return arr
 }
